@@ -50,7 +50,7 @@ func (r Round) has(path string) bool {
 func (r Round) sig() string {
 	ps := append([]string(nil), r.Paths...)
 	sort.Strings(ps)
-	return fmt.Sprintf("%s|n=%d|%s|v=%d|m=%d", r.Comp, r.Closers, strings.Join(ps, "+"), r.P["variant"], r.P["udp"]+2*r.P["pathFirst"])
+	return fmt.Sprintf("%s|n=%d|%s|v=%d|m=%d", r.Comp, r.Closers, strings.Join(ps, "+"), r.P["variant"], r.P["udp"]+2*r.P["pathFirst"]+8*r.P["bw"])
 }
 
 type fail struct {
@@ -501,11 +501,13 @@ func repoGoroutines(max int) (dump string, progressing bool) {
 	buf := make([]byte, 1<<20)
 	n := runtime.Stack(buf, true)
 	var sb strings.Builder
+	inside := 0
 	for _, g := range strings.Split(string(buf[:n]), "\n\n") {
 		if !strings.Contains(g, "tunnox-core/internal/") {
 			continue
 		}
 		lines := strings.Split(g, "\n")
+		inside++
 		if strings.Contains(lines[0], "[running") || strings.Contains(lines[0], "[runnable") {
 			progressing = true
 		}
@@ -523,6 +525,11 @@ func repoGoroutines(max int) (dump string, progressing bool) {
 			sb.WriteString(" | ")
 		}
 		sb.WriteString("\n")
+	}
+	if inside == 0 {
+		// nobody is inside the code under test: whoever has not returned yet is a harness
+		// goroutine that has not been scheduled (loaded machine) - that is progress, not a block
+		progressing = true
 	}
 	return sb.String(), progressing
 }
@@ -669,4 +676,24 @@ func (r *race) failsSnapshot() []fail {
 	r.mu.Lock()
 	defer r.mu.Unlock()
 	return append([]fail(nil), r.fails...)
+}
+
+// errInjected is what fault-injected cleanup steps and resource Close calls return.
+var errInjected = fmt.Errorf("c16: injected cleanup failure")
+
+// faultyHandler is the fault dimension "an earlier cleanup step fails and/or is slow": bit 1 of
+// mode makes it return an error, bit 2 makes it take ~30us. It is registered BEFORE the
+// harness's counting handler, which must still run exactly once.
+func faultyHandler(mode int, c *counter) func() error {
+	return func() error {
+		c.hit()
+		if mode&2 != 0 {
+			for t := nowNS(); nowNS()-t < 30000; {
+			}
+		}
+		if mode&1 != 0 {
+			return errInjected
+		}
+		return nil
+	}
 }
